@@ -302,8 +302,15 @@ def check_parsed(R, F, inp):
     """inp = {"string": s, "sequence": [[count, atom name], ...]}: s is flat and already in Hill order (sequence is what
     it must parse to); then formula(s) == formula(s).hill"""
     from periodictable.formulas import formula
-    s = inp["string"]
     want = [(c, resolve(nm)) for c, nm in inp["sequence"]]
+    # the same string with each form of the density tag: the tag changes the density, never the parsed structure
+    for tag in ("", "@1.5", "@1.5n", "@1.5i"):
+        _check_parsed_one(R, F, dict(inp, string=inp["string"] + tag), want)
+
+
+def _check_parsed_one(R, F, inp, want):
+    from periodictable.formulas import formula
+    s = inp["string"]
     R.ok(1)
     try:
         p = formula(s)
